@@ -78,6 +78,10 @@ func specLinesText(lines []string, i int) string {
 //@   invariant sofar: ctxDoneSeen == old(ctxDoneSeen) ==> !sc.failed && splSent ++ block == old(splSent) ++ specLinesText(sc.lines, sc.pos)
 
 // ---- generator stage (root_generator.go)
+// lnRootCount: root rows met in the block a generator worker is parsing (the splitter cuts at root rows, so it is at most
+// one when the parser's heading mode agrees with the splitter's - a fact about the shared parser that one goroutine cannot
+// see; the worker's line bookkeeping is therefore stated for blocks with at most one root row)
+//@ ghost var lnRootCount int
 //@ func gtree.newRootGeneratorPipeline
 //@   ensures fresh: fresh(result) && result.nodeGenerator != nil && result.nodeGenerator.parser != nil && md.parserOK(result.nodeGenerator.parser)
 //@ func gtree.rootGeneratorPipeline.generate
@@ -88,10 +92,10 @@ func specLinesText(lines []string, i int) string {
 //@   carries errc: errChan
 //@   carries result0: rootChan
 //@   carries result1: errChan
-//@   modifies Node.children, Node.parent, list.List.view, list.Element.backOf, counter.n, bufio.Scanner.pos, bufio.Scanner.failed, markdown.Parser.isSharpRoot, markdown.Parser.spaces, markdown.Parser.sep, errSent, ctxDoneSeen
+//@   modifies Node.children, Node.parent, list.List.view, list.Element.backOf, counter.n, bufio.Scanner.pos, bufio.Scanner.failed, markdown.Parser.isSharpRoot, markdown.Parser.spaces, markdown.Parser.sep, errSent, ctxDoneSeen, lnNodes, lnRootCount
 //@ closure gtree.rootGeneratorPipeline.generate#1
 //@   requires nn: rg != nil && rg.nodeGenerator != nil && rg.nodeGenerator.parser != nil && md.parserOK(rg.nodeGenerator.parser) && ctx != nil
-//@   modifies Node.children, Node.parent, list.List.view, list.Element.backOf, counter.n, bufio.Scanner.pos, bufio.Scanner.failed, markdown.Parser.isSharpRoot, markdown.Parser.spaces, markdown.Parser.sep, errSent, ctxDoneSeen
+//@   modifies Node.children, Node.parent, list.List.view, list.Element.backOf, counter.n, bufio.Scanner.pos, bufio.Scanner.failed, markdown.Parser.isSharpRoot, markdown.Parser.spaces, markdown.Parser.sep, errSent, ctxDoneSeen, lnNodes, lnRootCount
 //@ loop gtree.rootGeneratorPipeline.generate#1#1
 //@   invariant parser: md.parserOK(rg.nodeGenerator.parser)
 //@ func gtree.rootGeneratorPipeline.worker
@@ -100,13 +104,22 @@ func specLinesText(lines []string, i int) string {
 //@   carries blocks: blockChan
 //@   carries rootc: rootChan
 //@   carries errc: errChan
-//@   modifies Node.children, Node.parent, list.List.view, list.Element.backOf, counter.n, bufio.Scanner.pos, bufio.Scanner.failed, markdown.Parser.isSharpRoot, markdown.Parser.spaces, markdown.Parser.sep, errSent, ctxDoneSeen
+//@   modifies Node.children, Node.parent, list.List.view, list.Element.backOf, counter.n, bufio.Scanner.pos, bufio.Scanner.failed, markdown.Parser.isSharpRoot, markdown.Parser.spaces, markdown.Parser.sep, errSent, ctxDoneSeen, lnNodes, lnRootCount
+//@   after NewScanner: lnNodes := emptyseq(lnNodes)
+//@   after NewScanner: lnRootCount := 0
+//@   after push: lnRootCount := lnRootCount + 1
+//@   after generate: lnNodes := (result0 == nil && result1 == nil) ? lnNodes ++ seqof(nil) : lnNodes
+//@   after push: lnNodes := lnNodes ++ seqof(arg0)
+//@   after dfs: lnNodes := result ? lnNodes ++ seqof(as(last(recv.nodes.view), Node)) : lnNodes
 //@ loop gtree.rootGeneratorPipeline.worker#1
 //@   invariant ok: md.parserOK(rg.nodeGenerator.parser)
 //@ loop gtree.rootGeneratorPipeline.worker#2
 //@   invariant ok: md.parserOK(rg.nodeGenerator.parser) && sc != nil && 0 <= sc.pos && sc.pos <= len(sc.lines) && counter != nil
 //@   invariant root [C12]: root != nil ==> root.hierarchy == 1
 //@   invariant stack [C12]: stackOK(nodes)
+//@   invariant one [C02]: lnRootCount >= 0 && (lnRootCount == 0 ==> len(nodes.nodes.view) == 0) && (lnRootCount <= 1 ==> chain(nodes))
+//@   invariant count [C02]: len(lnNodes) == sc.pos
+//@   invariant lines [C02]: lnRootCount <= 1 ==> (forall j int :: {lnNodes[j]} 0 <= j && j < sc.pos ==> (md.allSpace(sc.lines[j]) ==> lnNodes[j] == nil) && (!md.allSpace(sc.lines[j]) ==> lineRepr(sc.lines[j], lnNodes[j])))
 
 // ---- grower stage (pipeline_tree_grower.go)
 //@ func gtree.defaultGrowerPipeline.grow
@@ -246,11 +259,17 @@ func specLinesText(lines []string, i int) string {
 //@ closure gtree.defaultMkdirerPipeline.mkdir#1
 //@   requires nn: dm != nil && dm.defaultMkdirerSimple != nil && dm.defaultMkdirerSimple.fileConsiderer != nil && ctx != nil
 //@   modifies fsOps, fsFailed, errSent, ctxDoneSeen
+// a worker reports a failed file-system operation and a root that already exists on its stage's error channel (C06: every
+// error an operation reports is returned - per goroutine: sent) and creates nothing for a root that exists
 //@ func gtree.defaultMkdirerPipeline.worker
 //@   requires nn: dm != nil && dm.defaultMkdirerSimple != nil && dm.defaultMkdirerSimple.fileConsiderer != nil && ctx != nil && wg != nil
 //@   carries roots: grownChan($g)
 //@   carries errc: errChan
 //@   modifies fsOps, fsFailed, errSent, ctxDoneSeen
+//@   ensures reported [C06]: fsFailed && !old(fsFailed) ==> errSent
+//@   ensures quiet [C06]: fsOps != old(fsOps) && !errSent ==> fsFailed == old(fsFailed)
+//@ loop gtree.defaultMkdirerPipeline.worker#1
+//@   invariant reported [C06]: fsFailed == old(fsFailed)
 
 // ---- verify stage (pipeline_tree_verifier.go)
 //@ func gtree.defaultVerifierPipeline.verify
@@ -260,15 +279,22 @@ func specLinesText(lines []string, i int) string {
 //@   requires validating [C07,C08]: g != nil ==> g.enabledValidation
 //@   carries errc: errChan
 //@   carries result0: errChan
-//@   modifies maps, errSent, ctxDoneSeen
+//@   modifies maps, errSent, vfSeen, ctxDoneSeen
 //@ closure gtree.defaultVerifierPipeline.verify#1
 //@   requires nn: dv != nil && dv.defaultVerifierSimple != nil && ctx != nil
-//@   modifies maps, errSent, ctxDoneSeen
+//@   modifies maps, errSent, vfSeen, ctxDoneSeen
+// a worker reports every root that does not match the directory on its stage's error channel (C08, per goroutine: vfSeen
+// collects the roots this worker has verified; as long as it has sent no error all of them match)
+//@ ghost var vfSeen []*Node
 //@ func gtree.defaultVerifierPipeline.worker
 //@   requires nn: dv != nil && dv.defaultVerifierSimple != nil && ctx != nil && wg != nil
 //@   carries roots: grownChan($g)
 //@   carries errc: errChan
-//@   modifies maps, errSent, ctxDoneSeen
+//@   modifies maps, errSent, ctxDoneSeen, vfSeen
+//@   after verifyRoot: vfSeen := vfSeen ++ seqof(arg0)
+//@   ensures mismatch [C08]: !errSent ==> (forall k int :: {vfSeen[k]} len(old(vfSeen)) <= k && k < len(vfSeen) ==> rootMatches(dv.defaultVerifierSimple, vfSeen[k]))
+//@ loop gtree.defaultVerifierPipeline.worker#1
+//@   invariant mismatch [C08]: len(old(vfSeen)) <= len(vfSeen) && (!errSent ==> (forall k int :: {vfSeen[k]} len(old(vfSeen)) <= k && k < len(vfSeen) ==> rootMatches(dv.defaultVerifierSimple, vfSeen[k])))
 
 // ---- walk stage (pipeline_tree_walker.go): safety only. After a callback error a worker reports it and goes on with
 // the next root, and ten workers share the callback: "no callback after the first error" does not hold in the massive
